@@ -231,9 +231,10 @@ func (w window) insideEntries(detailed bool) []LEntry {
 }
 
 // runFtp drives one session of the real service; crash != "" when the service failed.
-func runFtp(w window, ops []Op) (ob FtpObs, crash string) {
-	w.reset()
+func runFtp(w window, layout int, ops []Op) (ob FtpObs, crash string) {
+	w.resetLayout(layout)
 	before := escapeState()
+	modesBefore := w.outsideModes()
 	fn, ok := services.Get("ftp")
 	if !ok {
 		hx.Fatal("ftp service not registered")
@@ -344,12 +345,20 @@ func runFtp(w window, ops []Op) (ob FtpObs, crash string) {
 	if after := escapeState(); after != before {
 		ob.Escape = after
 	}
+	// permissions of what lies outside the root (existence and content are in the snapshot)
+	modesAfter := w.outsideModes()
+	for p, m := range modesBefore {
+		if m2, ok := modesAfter[p]; ok && m2 != m {
+			ob.Escape += fmt.Sprintf("mode of %s: %v -> %v;", p, m, m2)
+		}
+	}
 	return ob, ""
 }
 
 // ---- child process: commands that may kill the process ----
 
 type childReq struct {
+	Layout int `json:"layout"`
 	Top string `json:"top"`
 	DB  string `json:"db"`
 	Ops  []Op   `json:"ops"`
@@ -368,7 +377,7 @@ func childMain() {
 	debug.SetMaxStack(32 << 20)
 	w := newWindow(rq.Top)
 	setupStorage(rq.DB, w)
-	ob, crash := runFtp(w, rq.Ops)
+	ob, crash := runFtp(w, rq.Layout, rq.Ops)
 	json.NewEncoder(os.Stdout).Encode(childRes{Obs: ob, Crash: crash})
 }
 
@@ -557,6 +566,64 @@ func ftpCorpus() [][]Op {
 	}
 }
 
+// every way to name the root directory itself
+func rootSpellings(w window) []string {
+	return []string{"/", ".", "..", "//", "a/..", "/..", "../..", "/./", "a/../..", "/a/../", w.root, w.root + "/", w.root + "/a/..", "./"}
+}
+
+// commands that leave the root empty (layout 0 also holds the mirrored host path)
+func emptyRoot(layout int, w window, abs bool) []Op {
+	P := func(v, p string) Op {
+		if abs {
+			p = "/" + p
+		}
+		return Op{V: v, P: hx.B(p)}
+	}
+	ops := []Op{P("DELE", "a/b"), P("DELE", "b"), P("RMD", "a/a/b"), P("RMD", "a/a"), P("RMD", "a")}
+	if layout == 0 {
+		m := strings.TrimPrefix(w.absFile(), "/")
+		ops = append(ops, P("DELE", m))
+		for d := filepath.Dir(m); d != "."; d = filepath.Dir(d) {
+			ops = append(ops, P("RMD", d))
+		}
+	}
+	return ops
+}
+
+func rootCorpus(layout int, w window, cwdOK bool) [][]Op {
+	P := func(v, p string) Op { return Op{V: v, P: hx.B(p)} }
+	S := func(p, d string) Op { return Op{V: "STOR", P: hx.B(p), Data: hx.B(d)} }
+	with := func(tail ...Op) []Op { return append(append([]Op(nil), emptyRoot(layout, w, false)...), tail...) }
+	var out [][]Op
+	// RMD of the emptied root, every spelling; afterwards the client looks around
+	for _, sp := range rootSpellings(w) {
+		out = append(out, with(P("RMD", sp), P("NLST", ""), P("MKD", "x")))
+	}
+	out = append(out,
+		// root not empty: nothing may go
+		[]Op{P("RMD", "/"), P("RMD", ".."), P("RMD", "a/a/b"), P("RMD", "a/.."), P("NLST", "")},
+		// removed and recreated, as directory and as file; commands racing with it
+		with(P("RMD", "/"), P("MKD", "/"), P("MKD", "a"), S("b", "again"), P("RMD", "a"), P("DELE", "b"), P("RMD", "..")),
+		with(P("RMD", "/"), S("/", "root-as-file"), Op{V: "REST", Z: -100}, P("RETR", "/"), P("MKD", "a"), P("DELE", "/"), P("MKD", "/"), P("RMD", "/")),
+		with(P("RMD", "/"), P("MKD", "a"), S("a", "x"), P("RMD", "/"), P("RMD", ".."), P("DELE", ".."), P("NLST", "..")),
+		with(P("DELE", "/"), P("DELE", "/"), P("MKD", ".."), P("RMD", "../..")),
+		// the root renamed: onto itself, into itself, above itself; something renamed onto the root
+		with(P("RNFR", "/"), P("RNTO", "/"), P("RNFR", "/"), P("RNTO", "x"), P("RNFR", "/"), P("RNTO", "../moved"), P("RNFR", "."), P("RNTO", w.root+"/../moved"), P("NLST", "")),
+		with(P("MKD", "d"), P("RNFR", "d"), P("RNTO", "/"), P("RNFR", "d"), P("RNTO", ".."), P("RNFR", "d"), P("RNTO", "../.."), P("RMD", "d"), P("RNTO", "..")),
+		with(P("RMD", "/"), P("RNFR", "/"), P("RNTO", "x"), P("RNFR", ".."), P("RNTO", "/"), P("MKD", "/"), P("RNFR", "/"), P("RNTO", "/a")),
+		// pruning must stop at the root: sub-trees removed bottom-up while the root keeps a file
+		[]Op{P("RMD", "a/a/b"), P("NLST", "a"), P("RMD", "a/a"), P("NLST", "a"), P("DELE", "a/b"), P("RMD", "a"), P("NLST", "")},
+	)
+	if cwdOK {
+		out = append(out,
+			// ".." from a sub-directory that was just removed
+			append(append([]Op{P("CWD", "a")}, emptyRoot(layout, w, true)...), P("RMD", ".."), Op{V: "PWD"}, P("NLST", "")),
+			append(append([]Op{P("CWD", "a/a")}, emptyRoot(layout, w, true)...), P("RMD", "../.."), P("RMD", ".."), Op{V: "PWD"}),
+			with(P("CWD", "/"), P("RMD", "."), Op{V: "CDUP"}, Op{V: "PWD"}, P("MKD", "."), P("RMD", "/")))
+	}
+	return out
+}
+
 func coqCmd(o Op) string {
 	switch o.V {
 	case "PWD":
@@ -578,7 +645,7 @@ func coqCmd(o Op) string {
 	return name + " " + hx.CoqBytes(o.P)
 }
 
-func coqFtp(id int, ops []Op, ob FtpObs) string {
+func coqFtp(id int, layout int, ops []Op, ob FtpObs) string {
 	var cs, rs []string
 	for _, o := range ops {
 		cs = append(cs, coqCmd(o))
@@ -618,7 +685,7 @@ func coqFtp(id int, ops []Op, ob FtpObs) string {
 			ls = append(ls, fmt.Sprintf("(%s, %s)", ents(f.Listed), ents(f.Truth)))
 		}
 	}
-	return fmt.Sprintf("mkFC %s ROOT FS0 %s %s %s %s %s", hx.CoqN(uint64(id)), hx.CoqList(cs, "cmd"),
+	return fmt.Sprintf("mkFC %s ROOT FS%d %s %s %s %s %s", hx.CoqN(uint64(id)), layout, hx.CoqList(cs, "cmd"),
 		hx.CoqList(rs, "(list N * payload)"), coqFS(ob.Final), hx.CoqBool(ob.Escape != ""),
 		hx.CoqList(ls, "(list (bytes * bytes) * list (bytes * bytes))"))
 }
@@ -629,9 +696,10 @@ func runFtpPart(o hx.Opts, r *hx.Rand, w window, out, header string, all []strin
 	quick := o.Tier == "quick"
 	dist := map[string]int{}
 	var cases []hx.Case
-	add := func(kind string, ops []Op, ob FtpObs, crash string) {
+	add := func(kind string, layout int, ops []Op, ob FtpObs, crash string) {
 		id := len(cases)
-		in := Input{Part: kind, Ops: ops}
+		in := Input{Part: kind, Ops: ops, Layout: layout}
+		dist[fmt.Sprintf("layout:%d", layout)]++
 		for _, op := range ops {
 			dist["verb:"+op.V]++
 			if strings.Contains(string(op.P), "..") {
@@ -649,7 +717,7 @@ func runFtpPart(o hx.Opts, r *hx.Rand, w window, out, header string, all []strin
 		dist[fmt.Sprintf("commands:%d", minInt(len(ops), 10))]++
 		c := hx.Case{ID: id, Kind: kind, Input: in, Obs: ob, Crash: crash}
 		if crash == "" {
-			c.Coq = coqFtp(id, ops, ob)
+			c.Coq = coqFtp(id, layout, ops, ob)
 		}
 		cases = append(cases, c)
 	}
@@ -667,14 +735,14 @@ func runFtpPart(o hx.Opts, r *hx.Rand, w window, out, header string, all []strin
 		cwdOK = crash == ""
 		dist[fmt.Sprintf("cwd-probe-survives:%v", cwdOK)]++
 		if !cwdOK {
-			add("ftp-cwd", cwdOps, ob, crash)
+			add("ftp-cwd", 0, cwdOps, ob, crash)
 		}
 		if replay != nil {
 			if cwdOK {
 				// repaired code: judge the replayed sequence in-process like any other
 				setupStorage(filepath.Join(out, "c11db"), w)
-				ob, crash := runFtp(w, cwdOps)
-				add("ftp", cwdOps, ob, crash)
+				ob, crash := runFtp(w, replay.Layout%nLayouts, cwdOps)
+				add("ftp", replay.Layout%nLayouts, cwdOps, ob, crash)
 			}
 			hx.Write(o, "C11", "ftp", header+"Import FtpCheck.\n", "case", cases, dist, nil, 40)
 			return
@@ -682,9 +750,19 @@ func runFtpPart(o hx.Opts, r *hx.Rand, w window, out, header string, all []strin
 	}
 	setupStorage(filepath.Join(out, "c11db"), w)
 	var seqs [][]Op
+	var lays []int // layout of the root's surroundings per sequence (default: by position)
 	if replay != nil {
 		seqs = [][]Op{replay.Ops}
+		lays = []int{replay.Layout % nLayouts}
 	} else {
+		// the client empties the root, then removes / renames / recreates the root itself,
+		// spelled in every way, under every layout of its surroundings
+		for l := 0; l < nLayouts; l++ {
+			for _, ops := range rootCorpus(l, w, cwdOK) {
+				seqs = append(seqs, ops)
+				lays = append(lays, l)
+			}
+		}
 		if cwdOK {
 			C := func(p string) Op { return Op{V: "CWD", P: hx.B(p)} }
 			up, pwd := Op{V: "CDUP"}, Op{V: "PWD"}
@@ -712,12 +790,38 @@ func runFtpPart(o hx.Opts, r *hx.Rand, w window, out, header string, all []strin
 			n, maxLen = 2600, 8
 		}
 		for i := 0; i < n; i++ {
+			if i%8 == 7 {
+				// emptied root, then a few commands aimed at the root and around it
+				l := 1 + r.Intn(nLayouts-1)
+				for len(lays) < len(seqs) {
+					lays = append(lays, 0)
+				}
+				ops := append([]Op(nil), emptyRoot(l, w, false)...)
+				for k := r.Range(1, 3); k > 0; k-- {
+					v := r.PickStr([]string{"RMD", "RMD", "RMD", "RNFR", "RNTO", "MKD", "STOR", "DELE", "NLST"})
+					op := Op{V: v, P: hx.B(r.PickStr(rootSpellings(w)))}
+					if r.Chance(1, 4) {
+						op.P = hx.B(genFtpPath(r, all))
+					}
+					if v == "STOR" {
+						op.Data = hx.B("raced")
+					}
+					ops = append(ops, op)
+				}
+				seqs = append(seqs, ops)
+				lays = append(lays, l)
+				continue
+			}
 			seqs = append(seqs, genFtpOps(r, all, maxLen, cwdOK))
 		}
 	}
-	for _, ops := range seqs {
-		ob, crash := runFtp(w, ops)
-		add("ftp", ops, ob, crash)
+	for i, ops := range seqs {
+		l := []int{0, 0, 1, 2}[i%4]
+		if i < len(lays) {
+			l = lays[i]
+		}
+		ob, crash := runFtp(w, l, ops)
+		add("ftp", l, ops, ob, crash)
 	}
 	hx.Write(o, "C11", "ftp", header+"Import FtpCheck.\n", "case", cases, dist, nil, 40)
 }
